@@ -4,7 +4,7 @@ from checks import rtcommon
 
 def run(ctx):
     args = (["--n", "2500", "--maxdim", "24", "--exh", "1"] if ctx.quick
-            else ["--n", "40000", "--maxdim", "64", "--exh", "2", "--big"])
+            else ["--n", "160000", "--maxdim", "64", "--exh", "2", "--big"])
     return rtcommon.run_contract(
         ctx, "c07", args, class_keys=("p", "c", "near", "cls"),
         rule="scenario = nearlossless.Encode(NEAR) then Decode; sweep: every P in 2..16 x every NEAR in 0..min(255,MAXVAL/2) "
